@@ -65,6 +65,9 @@ def run(c, seed, T, nswp, cache, vld, cb=None, m=None, **more):
     ca = RecordingCache() if cache else None
     info = {}
     kw = dict(nswp=nswp, m=m, dr_min=c['dr'][0], dr_max=c['dr'][1], info=info, cache=ca, cb=cb, m_cache_scale=10 ** 9)
+    for opt in ('tau', 'tau0', 'k0'):
+        if c.get(opt) is not None:
+            kw[opt] = c[opt]
     kw.update(more)
     if vld:
         I = space.grid_array(c['shape'])
@@ -286,6 +289,12 @@ def strata(tier, seed):
         for r0 in (1, 2):
             for dr in ((1, 1), (1, 2), (2, 2)):
                 cs.append(dict(shape=sh, rho=rho, pat='gen', r0=r0, dr=list(dr), seed=seed, prefix_runs=[]))
+    # requests of more than 8192 rows whose size is odd (21 x 21 x 21); maxvol with its tolerance at exactly 1 and a tiny iteration budget
+    cs.append(dict(shape=[21, 21, 21], rho=21, pat='gen', r0=21, dr=[0, 0], seed=seed, prefix_runs=[]))
+    for sh, rho in (([6, 7, 6], 3), ([16, 20, 18, 16][:3], 4), ([5, 5, 5, 5], 3)):
+        for tau0, k0 in ((1.0, 1), (1.0, 2), (1.0, 3), (1.05, 1), (1.0, 100)):
+            for dr in ((0, 0), (1, 1)):
+                cs.append(dict(shape=sh, rho=rho, pat='gen', r0=rho if dr == (0, 0) else 1, dr=list(dr), seed=seed, tau0=tau0, k0=k0, prefix_runs=[1]))
     # moderately large dimension / mode size / rank (d = 6, 8; mode 17; rank 6 with modes of size 3: ranks above the mode size)
     for sh, rho, r0, dr in (([2] * 6, 2, 1, (1, 1)), ([2] * 8, 2, 2, (0, 0)), ([17, 3, 4], 3, 1, (1, 2)), ([3] * 5, 6, 2, (2, 2)), ([7, 10], 7, 3, (2, 2)), ([3, 4, 3, 4, 3], 4, 4, (0, 0))):
         cs.append(dict(shape=sh, rho=rho, pat='gen', r0=r0, dr=list(dr), seed=seed, prefix_runs=[1]))
